@@ -149,6 +149,145 @@ def drawLoopPinned (w : Nat) (d i : Nat) : Nat := drawLoop w d (i - 1)
 example : drawLoopPinned 64 0b111 0 = drawLoopPinned 64 0b111 1 := by decide
 example : ∀ i, i < 3 → drawLoopPinned 64 0b111 i ≠ 2 := by decide
 
+
+/-! ## Sequences of draws from one kept deck (`Deck::hole`, `Deck::deal`, a whole hand) -/
+
+/-- removing a card of the deck lowers the count by exactly one -/
+theorem popW_remove (d d' c : Nat) (hb : d.testBit c = true)
+    (h : ∀ j, d'.testBit j = (d.testBit j && !decide (j = c))) :
+    ∀ w, popW w d' + (if c < w then 1 else 0) = popW w d := by
+  intro w
+  induction w with
+  | zero => simp [popW]
+  | succ w ih =>
+    rw [popW_succ, popW_succ, h w]
+    by_cases h1 : c < w
+    · have : ¬ w = c := by omega
+      have h2 : c < w + 1 := by omega
+      simp [h1, h2, this] at ih ⊢; omega
+    · by_cases h2 : w = c
+      · subst h2; simp [hb] at ih ⊢; omega
+      · have h3 : ¬ c < w + 1 := by omega
+        simp [h1, h2, h3] at ih ⊢; omega
+
+theorem drawAt_lt (d i : Nat) : (drawAt d i).2 ≤ d := by
+  simp only [drawAt, remove]; exact Nat.and_le_left
+
+theorem draw_size (d r : Nat) (hd : d < 2^64) (hne : 0 < popW 64 d) :
+    popW 64 (draw d r).2 + 1 = popW 64 d := by
+  have hi : r % popW 64 d < popW 64 d := Nat.mod_lt _ hne
+  have hm := C14_draw_mem d _ hi
+  have := popW_remove d (drawAt d (r % popW 64 d)).2 (drawAt d (r % popW 64 d)).1 hm.2
+    (fun j => C14_draw_removes d _ j hd hi) 64
+  simp only [hm.1, if_true] at this
+  exact this
+
+/-- **Never twice, along any sequence of draws from one deck**: whatever raw random values are
+    used, `k` successive draws (a hole, a flop, every street of a hand dealt from one kept deck)
+    return `k` pairwise different cards of the original deck, and the deck that remains is the
+    original one without exactly those cards. -/
+theorem C14_drawMany_spec : ∀ (rs : List Nat) (d : Nat) (cs : List Nat) (d' : Nat), d < 2^64 →
+    drawMany d rs = some (cs, d') →
+    cs.length = rs.length ∧ cs.Nodup ∧ (∀ c ∈ cs, c < 64 ∧ d.testBit c = true) ∧
+    (∀ j, d'.testBit j = (d.testBit j && !decide (j ∈ cs))) ∧ d' < 2^64 := by
+  intro rs
+  induction rs with
+  | nil =>
+    intro d cs d' hd h
+    simp only [drawMany, Option.some.injEq, Prod.mk.injEq] at h
+    obtain ⟨rfl, rfl⟩ := h
+    simp [hd]
+  | cons r rs ih =>
+    intro d cs d' hd h
+    simp only [drawMany] at h
+    by_cases h0 : popW 64 d = 0
+    · simp [h0] at h
+    · simp only [h0, if_false] at h
+      cases hm : drawMany (draw d r).2 rs with
+      | none => simp [hm] at h
+      | some p =>
+        obtain ⟨cs1, d1⟩ := p
+        simp only [hm, Option.some.injEq, Prod.mk.injEq] at h
+        obtain ⟨rfl, rfl⟩ := h
+        have hi : r % popW 64 d < popW 64 d := Nat.mod_lt _ (Nat.pos_of_ne_zero h0)
+        have hmem := C14_draw_mem d _ hi
+        have hrem := fun j => C14_draw_removes d _ j hd hi
+        have hd1 : (draw d r).2 < 2^64 := Nat.lt_of_le_of_lt (drawAt_lt d _) hd
+        obtain ⟨hl, hnd, hin, hbits, hlt⟩ := ih (draw d r).2 cs1 d1 hd1 hm
+        have hc_notin : (draw d r).1 ∉ cs1 := by
+          intro hc
+          have := (hin _ hc).2
+          simp only [draw] at this
+          rw [hrem] at this
+          simp at this
+        refine ⟨by simp [hl], List.nodup_cons.mpr ⟨hc_notin, hnd⟩, ?_, ?_, hlt⟩
+        · intro c hc
+          rcases List.mem_cons.mp hc with rfl | hc
+          · exact hmem
+          · have := hin c hc
+            refine ⟨this.1, ?_⟩
+            have h2 := this.2
+            simp only [draw] at h2
+            rw [hrem] at h2
+            simp at h2
+            exact h2.1
+        · intro j
+          rw [hbits j]
+          simp only [draw]
+          rw [hrem j]
+          by_cases e1 : j = (drawAt d (r % popW 64 d)).1 <;> by_cases e2 : j ∈ cs1 <;>
+            simp [e1, e2, List.mem_cons]
+
+/-- **No abort while cards remain**: `k ≤ n` successive draws from a deck of `n` cards all succeed
+    (the real `gen_range(0..n)` never sees an empty range) -/
+theorem C14_drawMany_total : ∀ (rs : List Nat) (d : Nat), d < 2^64 → rs.length ≤ popW 64 d →
+    (drawMany d rs).isSome = true := by
+  intro rs
+  induction rs with
+  | nil => intro d _ _; simp [drawMany]
+  | cons r rs ih =>
+    intro d hd hl
+    simp only [List.length_cons] at hl
+    have hne : 0 < popW 64 d := by omega
+    have hsz := draw_size d r hd hne
+    have hd1 : (draw d r).2 < 2^64 := Nat.lt_of_le_of_lt (drawAt_lt d _) hd
+    have := ih (draw d r).2 hd1 (by omega)
+    simp only [drawMany, show popW 64 d ≠ 0 by omega, if_false]
+    cases hm : drawMany (draw d r).2 rs with
+    | none => simp [hm] at this
+    | some p => simp
+
+/-- the deck shrinks by exactly the number of cards dealt -/
+theorem C14_drawMany_size : ∀ (rs : List Nat) (d : Nat) (cs : List Nat) (d' : Nat), d < 2^64 →
+    drawMany d rs = some (cs, d') → popW 64 d' + rs.length = popW 64 d := by
+  intro rs
+  induction rs with
+  | nil =>
+    intro d cs d' _ h
+    simp only [drawMany, Option.some.injEq, Prod.mk.injEq] at h
+    simp [h.2]
+  | cons r rs ih =>
+    intro d cs d' hd h
+    simp only [drawMany] at h
+    by_cases h0 : popW 64 d = 0
+    · simp [h0] at h
+    · simp only [h0, if_false] at h
+      cases hm : drawMany (draw d r).2 rs with
+      | none => simp [hm] at h
+      | some p =>
+        obtain ⟨cs1, d1⟩ := p
+        simp only [hm, Option.some.injEq, Prod.mk.injEq] at h
+        obtain ⟨_, rfl⟩ := h
+        have hd1 : (draw d r).2 < 2^64 := Nat.lt_of_le_of_lt (drawAt_lt d _) hd
+        have := ih (draw d r).2 cs1 d1 hd1 hm
+        have hsz := draw_size d r hd (Nat.pos_of_ne_zero h0)
+        simp only [List.length_cons]; omega
+
+-- non-vacuity: a whole hand dealt from one kept full deck with every raw value 0 takes the
+-- nine lowest cards, two by two, then the flop, turn and river
+example : dealRun (2^52 - 1) 0 = some ([0b11, 0b1100, 0b1110000, 0b10000000, 0b100000000], 2^52 - 2^9) := by decide
+example : drawMany 0b101 [7, 7, 7] = none := by decide
+
 -- non-vacuity: a full 52-card deck, index 51 draws card 51 (the ace of spades)
 example : popW 64 (2^52 - 1) = 52 := by decide
 example : (drawAt (2^52 - 1) 51).1 = 51 := by decide
